@@ -23,7 +23,9 @@ import os
 #  the priority the execution already has; the switches stay so that an old tree can still be searched behind them)
 # (bw-in-latency, fixed too: a bandwidth change while a communication is still paying its latency activated it early; under the lazy
 #  network model it then never completed.  Was excluded by giving every link a null latency when a bandwidth profile exists.)
-OPEN = set(x for x in os.environ.get("VF_C19_OPEN", "ti-profile-start").split(",") if x)
+#   bw-xtraffic      a bandwidth change on a link that carries only the cross-traffic of a communication corrupts that communication's sharing
+#                    penalty (abort when it becomes negative).  Excluded by switching cross-traffic off when a bandwidth profile exists.
+OPEN = set(x for x in os.environ.get("VF_C19_OPEN", "ti-profile-start,bw-xtraffic").split(",") if x)
 MARGIN = 1e-6      # a suspend / resume closer than this to the start or the completion of its activity makes the case tie-prone: not decided
 
 
@@ -80,6 +82,8 @@ def workloads(draw):
         if "bw-in-latency" in OPEN and any("bw_profile" in l for l in plat.get("links", [])):
             for l in plat["links"]:
                 l["lat"] = 0.0
+    if "bw-xtraffic" in OPEN and any("bw_profile" in l for l in plat.get("links", [])):
+        case["crosstraffic"] = False
     nh = [0]
 
     def handle():
